@@ -20,7 +20,9 @@ ID = 'C18'
 LEVEL = 'exploration'
 RULE = (
     'Function level: every combination of 6 parameter sets (spline and '
-    'PEATCLSM specific yield x spline and PEATCLSM transmissivity) x (ET, '
+    'PEATCLSM specific yield x spline and PEATCLSM transmissivity; '
+    'thorough: all 77 pairs of 11 specific-yield sets and 7 transmissivity '
+    'sets) x (ET, '
     'curvature) in {(0, c), (e, 0), (e, c)} x 4 level grids below the '
     'transmissivity ceiling x {ascending, descending} x {grid, every cell '
     'halved} x 2 requested means through the real compute_recession_curve.  '
@@ -53,6 +55,16 @@ GRIDS = {
     'fine': [12.0 + 0.5 * i for i in range(30)],
 }
 ET_CURV = [(0.0, 2.36), (4.15, 0.0), (4.15, 2.36), (0.37, 0.01)]
+
+
+def param_pairs(tier):
+    """quick: 6 chosen pairs; thorough: every (Sy set, T set) pair"""
+    if tier == 'quick':
+        return list(PARAMS)
+    sy = [k for k in list(simdata.SPLINE_SY) + list(simdata.PEATCLSM_SY)
+          if k != 'descending']
+    return [(a, b) for a in sy
+            for b in list(simdata.SPLINE_T) + list(simdata.PEATCLSM_T)]
 MEANS = [0.0, 19.0]
 
 
@@ -62,19 +74,20 @@ def decoy():
 
 
 def BOUND(tier):
-    return ('6 parameter sets x 4 (ET, curvature) x 4 grids x 2 directions '
+    return ('%d parameter sets x 4 (ET, curvature) x 4 grids x 2 directions '
             'x 2 refinements x 2 means at function level; 3 datasets x 4 '
             'parameter files x 2 curvatures x 2 output forms at command '
-            'level')
+            'level' % len(param_pairs(tier)))
 
 
 def spaces(tier):
-    fn = list(itertools.product(range(len(PARAMS)), range(len(ET_CURV)),
+    pairs = param_pairs(tier)
+    fn = list(itertools.product(range(len(pairs)), range(len(ET_CURV)),
                                 GRIDS, (False, True), (1, 2), MEANS))
 
     def decode(i):
         p, ec, grid, desc, r, mean = fn[i]
-        return {'kind': 'fn', 'params': list(PARAMS[p]), 'et': ET_CURV[ec][0],
+        return {'kind': 'fn', 'params': list(pairs[p]), 'et': ET_CURV[ec][0],
                 'curvature': ET_CURV[ec][1], 'grid': grid,
                 'descending': desc, 'refine': r, 'mean': mean}
     cli = list(itertools.product(range(len(simdata.WORDS)), range(4),
